@@ -66,7 +66,7 @@ PROPS = {
         "not_decided": ["'always stops' as liveness", "actual timing"],
     },
     "C04": {
-        "modules": ["contracts.c04_tracking"],
+        "modules": ["contracts.c04_tracking", "contracts.c05_collections"],
         "level": "proof",
         "design_ref": "DESIGN.md section 8, C04",
         "trusted_base": [
@@ -80,7 +80,7 @@ PROPS = {
         "not_decided": ["alternatives/proxies (ts_data/proxy.cpp) and TSW", "container `valid` beyond has_current_value_impl",
                         "that consumers bound to an output read the producer's record (input cursor functions, C13)",
                         "fixed-shape parents 'only then' (no other writer records on the parent)",
-                        "copy_value_from / move_value_from / invalidate bodies (only mark_modified is under contract)"],
+                        "copy_value_from / move_value_from bodies (mark_modified and invalidate are under contract)"],
     },
     "C09": {
         "modules": ["contracts.c09_nested", "contracts.c02_graph_sched"],
